@@ -1,88 +1,89 @@
-(* Verified format combinators (C07 / C03).
+(* Verified format combinators for C07 (message body round trip).
 
-   A format [fmt A] packages an encoder, a decoder written against the checked cursor primitive
-   [take] of Base/Prelude.v (so reading beyond the end of the slice is the value [Panic], exactly as an
-   unchecked Go slice expression on a slice with cap = len), a well-formedness predicate (the domain of
-   the round trip) and THE ROUND-TRIP LAW AS A FIELD: whoever builds a format has proved
-   [dec (enc a ++ rest) = Ok (a, rest)].  Message types (Model/Msg_*.v) are compositions of these
-   formats interleaved with the explicit length guards of the Go parsers.
+   A format [fmt A] is a plain triple: encoder, decoder, boolean domain predicate.  The round-trip LAW is the
+   predicate [fmt_ok f : forall a rest, wf f a = true -> dec f (enc f a ++ rest) = Ok (a, rest)]; every
+   combinator below comes with ONE lemma "[the parts are ok] -> [the composition is ok]", so the theorem of a
+   message type (Proofs/Msg_*_proofs.v) is obtained by composition (tactic [fmt_ok]) and never re-proves
+   anything about big-endian integers, padding, BCD or counted lists.  Keeping the law outside the record
+   keeps Model/Msg_*.v definitions-only: the model runs (and is extracted) even if a proof breaks.
 
-   [fixed f n]: the format always occupies n bytes and its decoder succeeds on every input of at
-   least n bytes.  This is what turns a Go length guard into "the unchecked reads that follow cannot
-   panic" (C03), generically.  Instances are found by type-class resolution.
+   Message values live in ONE universe [val] = number | byte string | tuple, which is exactly the canonical
+   dump the harness prints for a Go value by reflection (declaration order; numbers in hex, strings and
+   []byte as x<hex>, structs / slices / maps as (a,b,...)).  So the extracted oracle is generic: one
+   printer, one reader, no per-type glue that could hide a field.
 
-   No Program / Equations / axioms; records with proof fields are erased by extraction. *)
+   Reading beyond the end of the body is the value [Err 1] here (a rejected body): every two-way parser
+   guards its reads, and "no panic on any input" is property C03 with its own models (Model/Total_*.v);
+   C07 is about the bodies Encode produces.  Guards that decide between two layouts or reject trailing bytes
+   ARE mirrored (tails [tl_exact]/[tl_ignore]/[tl_rest], [msg_switch]).
+
+   No Program / Equations / axioms. *)
 From JT.Base Require Import Prelude PreludeP.
 From Coq Require Import ZArith ZifyN ZifyNat ZifyBool.
 Ltac Zify.zify_post_hook ::= Z.div_mod_to_equations.
 
+(* ------------------------------------------------------------------ formats and their law *)
 Record fmt (A : Type) := {
   enc : A -> list N;
   dec : list N -> result (A * list N);
-  wf  : A -> Prop;
-  rt  : forall a rest, wf a -> dec (enc a ++ rest) = Ok (a, rest) }.
-Arguments enc {A}. Arguments dec {A}. Arguments wf {A}. Arguments rt {A}.
+  wf  : A -> bool }.
+Arguments enc {A}. Arguments dec {A}. Arguments wf {A}.
 
-Class fixed {A} (f : fmt A) (n : N) : Prop := {
-  fx_len : forall a, wf f a -> len (enc f a) = n;
-  fx_ok  : forall l, n <= len l -> exists a r, dec f l = Ok (a, r) /\ len r + n = len l }.
+Definition fmt_ok {A} (f : fmt A) : Prop :=
+  forall a rest, wf f a = true -> dec f (enc f a ++ rest) = Ok (a, rest).
 
-(* a decoder of a fixed format never returns an error, and panics exactly on short input *)
-Lemma fixed_not_panic {A} (f : fmt A) n (F : fixed f n) l : n <= len l -> dec f l <> Panic.
-Proof. intros H. destruct (fx_ok l H) as (a & r & E & _). rewrite E. discriminate. Qed.
+(* every well-formed value occupies exactly n bytes *)
+Definition has_len {A} (f : fmt A) (n : N) : Prop := forall a, wf f a = true -> len (enc f a) = n.
 
-(* ------------------------------------------------------------------ take: more lemmas *)
-Lemma take_ok_len n l : n <= len l -> exists a r, take n l = Ok (a, r) /\ len a = n /\ len r + n = len l /\ l = a ++ r.
+Lemma fmt_ok_nil {A} (f : fmt A) a : fmt_ok f -> wf f a = true -> dec f (enc f a) = Ok (a, []).
+Proof. intros H Hw. rewrite <- (app_nil_r (enc f a)). now apply H. Qed.
+
+(* ------------------------------------------------------------------ checked read: a short body is rejected *)
+Definition take_e (n : N) (l : list N) : result (list N * list N) :=
+  if n <=? len l then Ok (firstn (N.to_nat n) l, skipn (N.to_nat n) l) else Err 1.
+
+Lemma take_e_app a b : take_e (len a) (a ++ b) = Ok (a, b).
 Proof.
-  intros H. destruct (take_ok n l H) as (a & b & E & Hl & Ha). exists a, b. repeat split; auto.
-  subst l. rewrite len_app. lia.
+  pose proof (take_app a b) as H. unfold take in H. unfold take_e.
+  destruct (len a <=? len (a ++ b)); [exact H | discriminate H].
 Qed.
+Lemma take_e_app_n n a b : len a = n -> take_e n (a ++ b) = Ok (a, b).
+Proof. intros <-. apply take_e_app. Qed.
+Lemma take_e_short n l : len l < n -> take_e n l = Err 1.
+Proof. intros H. unfold take_e. replace (n <=? len l) with false by lia. reflexivity. Qed.
+
+Lemma len_repeat {A} (x : A) n : len (repeat x n) = N.of_nat n.
+Proof. unfold len. now rewrite repeat_length. Qed.
 
 (* ------------------------------------------------------------------ big-endian unsigned, n bytes *)
-Definition ube_dec (n : nat) (l : list N) : result (N * list N) :=
-  '(b, r) <- take (N.of_nat n) l ;; Ok (be_dec b, r).
-Lemma ube_rt n a rest : a < 256 ^ N.of_nat n -> ube_dec n (be_enc n a ++ rest) = Ok (a, rest).
+Definition ube (n : nat) : fmt N := {|
+  enc := be_enc n;
+  dec := fun l => '(b, r) <- take_e (N.of_nat n) l ;; Ok (be_dec b, r);
+  wf := fun a => a <? 256 ^ N.of_nat n |}.
+Lemma ube_ok n : fmt_ok (ube n).
 Proof.
-  intros H. unfold ube_dec. rewrite take_app_n by apply be_enc_len. cbn [bind].
-  rewrite be_dec_enc by exact H. reflexivity.
+  intros a rest H. cbn [enc dec wf ube] in *. rewrite take_e_app_n by apply be_enc_len. cbn [bind].
+  apply N.ltb_lt in H. rewrite be_dec_enc by exact H. reflexivity.
 Qed.
-Definition ube (n : nat) : fmt N :=
-  {| enc := be_enc n; dec := ube_dec n; wf := fun a => a < 256 ^ N.of_nat n; rt := ube_rt n |}.
-
-Global Instance fixed_ube n : fixed (ube n) (N.of_nat n).
-Proof.
-  split.
-  - intros a _. apply be_enc_len.
-  - intros l H. destruct (take_ok_len _ l H) as (a & r & E & Ha & Hr & _).
-    exists (be_dec a), r. split; [|exact Hr]. cbn [dec ube]. unfold ube_dec. rewrite E. reflexivity.
-Qed.
-
-Definition u8 : fmt N := ube 1.
-Definition u16 : fmt N := ube 2.
-Definition u32 : fmt N := ube 4.
-Definition u64 : fmt N := ube 8.
-Global Instance fixed_u8 : fixed u8 1. Proof. exact (fixed_ube 1). Qed.
-Global Instance fixed_u16 : fixed u16 2. Proof. exact (fixed_ube 2). Qed.
-Global Instance fixed_u32 : fixed u32 4. Proof. exact (fixed_ube 4). Qed.
-Global Instance fixed_u64 : fixed u64 8. Proof. exact (fixed_ube 8). Qed.
+Lemma ube_len n : has_len (ube n) (N.of_nat n).
+Proof. intros a _. apply be_enc_len. Qed.
 
 (* ------------------------------------------------------------------ n raw bytes *)
-Definition bytes_n_dec (n : N) (l : list N) : result (list N * list N) := take n l.
-Lemma bytes_n_rt n a rest : len a = n -> bytes_n_dec n (a ++ rest) = Ok (a, rest).
-Proof. intros H. unfold bytes_n_dec. apply take_app_n. exact H. Qed.
-Definition bytes_n (n : N) : fmt (list N) :=
-  {| enc := fun a => a; dec := bytes_n_dec n; wf := fun a => len a = n; rt := bytes_n_rt n |}.
-Global Instance fixed_bytes_n n : fixed (bytes_n n) n.
-Proof.
-  split.
-  - intros a H. exact H.
-  - intros l H. destruct (take_ok_len _ l H) as (a & r & E & Ha & Hr & _). exists a, r. split; [exact E|exact Hr].
-Qed.
+Definition bytes_n (n : N) : fmt (list N) := {|
+  enc := fun a => a;
+  dec := take_e n;
+  wf := fun a => len a =? n |}.
+Lemma bytes_n_ok n : fmt_ok (bytes_n n).
+Proof. intros a rest H. cbn [enc dec wf bytes_n] in *. apply take_e_app_n. lia. Qed.
+Lemma bytes_n_len n : has_len (bytes_n n) n.
+Proof. intros a H. cbn [enc wf bytes_n] in *. lia. Qed.
 
 (* ------------------------------------------------------------------ fixed-width NUL-padded strings *)
 (* utils.String2FillingBytes: pad with NUL on the right, cut when too long *)
 Definition fill (s : list N) (n : N) : list N :=
   if len s <? n then s ++ repeat 0 (N.to_nat (n - len s)) else firstn (N.to_nat n) s.
+(* a digit string left-padded with '0' to n characters (how a phone number is written back into BCD) *)
+Definition pad_zeros (n : N) (s : list N) : list N := repeat 48 (N.to_nat (n - len s)) ++ s.
 (* bytes.TrimRight(b, "\x00") *)
 Fixpoint trim_right0 (l : list N) : list N :=
   match l with
@@ -96,15 +97,14 @@ Fixpoint trim_right0 (l : list N) : list N :=
 Fixpoint trim_left0 (l : list N) : list N :=
   match l with [] => [] | c :: t => if c =? 0 then trim_left0 t else l end.
 Definition trim0 (l : list N) : list N := trim_right0 (trim_left0 l).
+(* if i := bytes.IndexByte(b, 0); i != -1 { b = b[:i] } *)
+Fixpoint cut0 (l : list N) : list N :=
+  match l with [] => [] | c :: t => if c =? 0 then [] else c :: cut0 t end.
 
-(* "no trailing NUL": the last byte, if any, is not 0 *)
-Definition no_trail0 (s : list N) : Prop := last s 1 <> 0.
-Definition no_trail0b (s : list N) : bool := negb (last s 1 =? 0).
-Definition no_lead0 (s : list N) : Prop := hd 1 s <> 0.
-Definition no_lead0b (s : list N) : bool := negb (hd 1 s =? 0).
-
-Lemma len_repeat {A} (x : A) n : len (repeat x n) = N.of_nat n.
-Proof. unfold len. now rewrite repeat_length. Qed.
+(* "no trailing NUL": the last byte, if any, is not 0; "no leading NUL"; "no NUL at all" *)
+Definition no_trail0 (s : list N) : bool := negb (last s 1 =? 0).
+Definition no_lead0 (s : list N) : bool := negb (hd 1 s =? 0).
+Definition no_nul (s : list N) : bool := forallb (fun c => negb (c =? 0)) s.
 
 Lemma fill_len s n : len (fill s n) = n.
 Proof.
@@ -112,191 +112,97 @@ Proof.
   - rewrite len_app, len_repeat. lia.
   - unfold len in *. rewrite firstn_length. lia.
 Qed.
-
-Lemma trim_right0_zeros k : trim_right0 (repeat 0 k) = [].
-Proof. induction k as [|k IH]; cbn [repeat trim_right0]; auto. now rewrite IH. Qed.
-
-Lemma trim_right0_app_zeros s k : trim_right0 (s ++ repeat 0 k) = trim_right0 s.
-Proof.
-  induction s as [|c s IH]; cbn [app trim_right0].
-  - apply trim_right0_zeros.
-  - now rewrite IH.
-Qed.
-
-Lemma trim_right0_id s : no_trail0 s -> trim_right0 s = s.
-Proof.
-  unfold no_trail0. induction s as [|c s IH]; intros H; cbn [trim_right0]; auto.
-  destruct s as [|d s].
-  - cbn [trim_right0]. cbn [last] in H. destruct (c =? 0) eqn:E; [lia|reflexivity].
-  - rewrite IH by exact H. reflexivity.
-Qed.
-
 Lemma fill_fits s n : len s <= n -> fill s n = s ++ repeat 0 (N.to_nat (n - len s)).
 Proof.
   intros H. unfold fill. destruct (len s <? n) eqn:E; auto.
   assert (len s = n) as <- by lia. rewrite N.sub_diag. cbn [N.to_nat repeat].
   unfold len. rewrite Nat2N.id, firstn_all. now rewrite app_nil_r.
 Qed.
+Lemma fill_exact s : fill s (len s) = s.
+Proof. rewrite fill_fits by lia. rewrite N.sub_diag. cbn [N.to_nat repeat]. apply app_nil_r. Qed.
 
-Definition str_pad_dec (n : N) (l : list N) : result (list N * list N) :=
-  '(b, r) <- take n l ;; Ok (trim_right0 b, r).
-Definition str_pad_wf (n : N) (s : list N) : Prop := len s <= n /\ no_trail0 s.
-Lemma str_pad_rt n s rest : str_pad_wf n s -> str_pad_dec n (fill s n ++ rest) = Ok (s, rest).
+Lemma trim_right0_zeros k : trim_right0 (repeat 0 k) = [].
+Proof. induction k as [|k IH]; cbn [repeat trim_right0]; auto. now rewrite IH. Qed.
+Lemma trim_right0_app_zeros s k : trim_right0 (s ++ repeat 0 k) = trim_right0 s.
 Proof.
-  intros [Hl Ht]. unfold str_pad_dec. rewrite take_app_n by apply fill_len. cbn [bind].
-  rewrite fill_fits by exact Hl. rewrite trim_right0_app_zeros, trim_right0_id by exact Ht. reflexivity.
+  induction s as [|c s IH]; cbn [app trim_right0].
+  - apply trim_right0_zeros.
+  - now rewrite IH.
 Qed.
-Definition str_pad (n : N) : fmt (list N) :=
-  {| enc := fun s => fill s n; dec := str_pad_dec n; wf := str_pad_wf n; rt := str_pad_rt n |}.
-Global Instance fixed_str_pad n : fixed (str_pad n) n.
+Lemma trim_right0_id s : no_trail0 s = true -> trim_right0 s = s.
 Proof.
-  split.
-  - intros a _. apply fill_len.
-  - intros l H. destruct (take_ok_len _ l H) as (a & r & E & Ha & Hr & _).
-    exists (trim_right0 a), r. split; [|exact Hr]. cbn [dec str_pad]. unfold str_pad_dec. now rewrite E.
+  unfold no_trail0. induction s as [|c s IH]; intros H; cbn [trim_right0]; auto.
+  destruct s as [|d s].
+  - cbn [trim_right0]. cbn [last] in H. destruct (c =? 0) eqn:E; [discriminate H|reflexivity].
+  - rewrite IH by exact H. reflexivity.
 Qed.
-
-(* the same field read with bytes.Trim (both sides): the domain loses the strings that begin with NUL *)
-Lemma trim_left0_id s : no_lead0 s -> trim_left0 s = s.
-Proof. unfold no_lead0. destruct s as [|c s]; cbn [trim_left0 hd]; auto. intros H. destruct (c =? 0) eqn:E; [lia|auto]. Qed.
-Lemma trim_left0_app_zeros s k : s <> [] -> no_lead0 s -> trim_left0 (s ++ repeat 0 k) = s ++ repeat 0 k.
-Proof. destruct s as [|c s]; [congruence|]. unfold no_lead0. cbn [app trim_left0 hd]. intros _ H.
-  destruct (c =? 0) eqn:E; [lia|auto]. Qed.
+Lemma trim_left0_id s : no_lead0 s = true -> trim_left0 s = s.
+Proof.
+  unfold no_lead0. destruct s as [|c s]; cbn [trim_left0 hd]; auto. intros H.
+  destruct (c =? 0) eqn:E; [discriminate H|auto].
+Qed.
 Lemma trim_left0_zeros k : trim_left0 (repeat 0 k) = [].
 Proof. induction k as [|k IH]; cbn [repeat trim_left0]; auto. Qed.
-
-Definition str_pad2_dec (n : N) (l : list N) : result (list N * list N) :=
-  '(b, r) <- take n l ;; Ok (trim0 b, r).
-Definition str_pad2_wf (n : N) (s : list N) : Prop := len s <= n /\ no_trail0 s /\ no_lead0 s.
-Lemma str_pad2_rt n s rest : str_pad2_wf n s -> str_pad2_dec n (fill s n ++ rest) = Ok (s, rest).
+Lemma trim_left0_app_zeros s k : s <> [] -> no_lead0 s = true -> trim_left0 (s ++ repeat 0 k) = s ++ repeat 0 k.
 Proof.
-  intros (Hl & Ht & Hh). unfold str_pad2_dec. rewrite take_app_n by apply fill_len. cbn [bind].
-  rewrite fill_fits by exact Hl. unfold trim0. destruct s as [|c s].
+  destruct s as [|c s]; [congruence|]. unfold no_lead0. cbn [app trim_left0 hd]. intros _ H.
+  destruct (c =? 0) eqn:E; [discriminate H|auto].
+Qed.
+Lemma cut0_zeros k : cut0 (repeat 0 k) = [].
+Proof. destruct k; reflexivity. Qed.
+Lemma cut0_app_zeros s k : no_nul s = true -> cut0 (s ++ repeat 0 k) = s.
+Proof.
+  induction s as [|c s IH]; cbn [app cut0 no_nul forallb]; intros H.
+  - apply cut0_zeros.
+  - apply andb_true_iff in H. destruct H as [Hc Hs]. destruct (c =? 0); [discriminate Hc|].
+    now rewrite IH.
+Qed.
+
+(* field read with bytes.TrimRight *)
+Definition str_pad (n : N) : fmt (list N) := {|
+  enc := fun s => fill s n;
+  dec := fun l => '(b, r) <- take_e n l ;; Ok (trim_right0 b, r);
+  wf := fun s => (len s <=? n) && no_trail0 s |}.
+Lemma str_pad_ok n : fmt_ok (str_pad n).
+Proof.
+  intros s rest H. cbn [enc dec wf str_pad] in *. apply andb_true_iff in H. destruct H as [Hl Ht].
+  rewrite take_e_app_n by apply fill_len. cbn [bind].
+  rewrite fill_fits by lia. rewrite trim_right0_app_zeros, trim_right0_id by exact Ht. reflexivity.
+Qed.
+Lemma str_pad_len n : has_len (str_pad n) n.
+Proof. intros a _. apply fill_len. Qed.
+
+(* the same field read with bytes.Trim (both sides): the domain loses the strings that begin with NUL *)
+Definition str_pad2 (n : N) : fmt (list N) := {|
+  enc := fun s => fill s n;
+  dec := fun l => '(b, r) <- take_e n l ;; Ok (trim0 b, r);
+  wf := fun s => (len s <=? n) && no_trail0 s && no_lead0 s |}.
+Lemma str_pad2_ok n : fmt_ok (str_pad2 n).
+Proof.
+  intros s rest H. cbn [enc dec wf str_pad2] in *.
+  apply andb_true_iff in H. destruct H as [H Hh]. apply andb_true_iff in H. destruct H as [Hl Ht].
+  rewrite take_e_app_n by apply fill_len. cbn [bind].
+  rewrite fill_fits by lia. unfold trim0. destruct s as [|c s].
   - cbn [app]. rewrite trim_left0_zeros. reflexivity.
   - rewrite trim_left0_app_zeros by (congruence || exact Hh).
     rewrite trim_right0_app_zeros, trim_right0_id by exact Ht. reflexivity.
 Qed.
-Definition str_pad2 (n : N) : fmt (list N) :=
-  {| enc := fun s => fill s n; dec := str_pad2_dec n; wf := str_pad2_wf n; rt := str_pad2_rt n |}.
-Global Instance fixed_str_pad2 n : fixed (str_pad2 n) n.
-Proof.
-  split.
-  - intros a _. apply fill_len.
-  - intros l H. destruct (take_ok_len _ l H) as (a & r & E & Ha & Hr & _).
-    exists (trim0 a), r. split; [|exact Hr]. cbn [dec str_pad2]. unfold str_pad2_dec. now rewrite E.
-Qed.
+Lemma str_pad2_len n : has_len (str_pad2 n) n.
+Proof. intros a _. apply fill_len. Qed.
 
-(* ------------------------------------------------------------------ sequencing *)
-Section Seq.
-Context {A B : Type} (f : fmt A) (g : fmt B).
-Definition seq_enc (ab : A * B) := enc f (fst ab) ++ enc g (snd ab).
-Definition seq_dec (l : list N) : result ((A * B) * list N) :=
-  '(a, r) <- dec f l ;; '(b, r') <- dec g r ;; Ok ((a, b), r').
-Definition seq_wf (ab : A * B) := wf f (fst ab) /\ wf g (snd ab).
-Lemma seq_rt ab rest : seq_wf ab -> seq_dec (seq_enc ab ++ rest) = Ok (ab, rest).
+(* the same field cut at the first NUL (0x0102 software version) *)
+Definition str_cut0 (n : N) : fmt (list N) := {|
+  enc := fun s => fill s n;
+  dec := fun l => '(b, r) <- take_e n l ;; Ok (cut0 b, r);
+  wf := fun s => (len s <=? n) && no_nul s |}.
+Lemma str_cut0_ok n : fmt_ok (str_cut0 n).
 Proof.
-  destruct ab as [a b]. intros [Ha Hb]. unfold seq_enc, seq_dec. cbn [fst snd] in *.
-  rewrite <- app_assoc, (rt f) by assumption. cbn [bind]. rewrite (rt g) by assumption. reflexivity.
+  intros s rest H. cbn [enc dec wf str_cut0] in *. apply andb_true_iff in H. destruct H as [Hl Ht].
+  rewrite take_e_app_n by apply fill_len. cbn [bind].
+  rewrite fill_fits by lia. rewrite cut0_app_zeros by exact Ht. reflexivity.
 Qed.
-Definition seq : fmt (A * B) := {| enc := seq_enc; dec := seq_dec; wf := seq_wf; rt := seq_rt |}.
-
-Global Instance fixed_seq n m (F : fixed f n) (G : fixed g m) : fixed seq (n + m).
-Proof.
-  split.
-  - intros [a b] [Ha Hb]. cbn [enc seq]. unfold seq_enc. cbn [fst snd] in *.
-    rewrite len_app, (fx_len (f := f)), (fx_len (f := g)) by assumption. reflexivity.
-  - intros l H. destruct (fx_ok (f := f) l) as (a & r & E & Hr); [lia|].
-    destruct (fx_ok (f := g) r) as (b & r' & E' & Hr'); [lia|].
-    exists (a, b), r'. split; [|lia]. cbn [dec seq]. unfold seq_dec. rewrite E. cbn [bind]. rewrite E'. reflexivity.
-Qed.
-End Seq.
-Infix "##" := seq (at level 59, right associativity).
-
-(* ------------------------------------------------------------------ isomorphic view (tuples <-> records) *)
-Section Iso.
-Context {A B : Type} (f : fmt A) (to : A -> B) (from : B -> A) (H : forall b, to (from b) = b).
-Definition iso_dec (l : list N) : result (B * list N) := '(a, r) <- dec f l ;; Ok (to a, r).
-Lemma iso_rt b rest : wf f (from b) -> iso_dec (enc f (from b) ++ rest) = Ok (b, rest).
-Proof. intros Hw. unfold iso_dec. rewrite (rt f) by assumption. cbn [bind]. now rewrite H. Qed.
-Definition iso : fmt B :=
-  {| enc := fun b => enc f (from b); dec := iso_dec; wf := fun b => wf f (from b); rt := iso_rt |}.
-Global Instance fixed_iso n (F : fixed f n) : fixed iso n.
-Proof.
-  split.
-  - intros b Hb. cbn [enc iso]. now apply (fx_len (f := f)).
-  - intros l Hl. destruct (fx_ok (f := f) l Hl) as (a & r & E & Hr). exists (to a), r. split; [|exact Hr].
-    cbn [dec iso]. unfold iso_dec. now rewrite E.
-Qed.
-End Iso.
-
-(* ------------------------------------------------------------------ exactly k items *)
-Section Rep.
-Context {A : Type} (f : fmt A).
-Fixpoint rep_dec (k : nat) (l : list N) : result (list A * list N) :=
-  match k with
-  | O => Ok ([], l)
-  | S k' => '(a, r) <- dec f l ;; '(t, r') <- rep_dec k' r ;; Ok (a :: t, r')
-  end.
-Definition rep_enc (l : list A) : list N := flat_map (enc f) l.
-Definition rep_wf (k : nat) (l : list A) : Prop := length l = k /\ Forall (wf f) l.
-Lemma rep_rt_gen : forall (l : list A) rest, Forall (wf f) l -> rep_dec (length l) (rep_enc l ++ rest) = Ok (l, rest).
-Proof.
-  induction l as [|a l IH]; intros rest H; [reflexivity|].
-  inversion H as [|? ? Ha Hl]; subst. cbn [length rep_dec rep_enc flat_map]. rewrite <- app_assoc.
-  rewrite (rt f) by assumption. cbn [bind]. unfold rep_enc in IH. rewrite IH by assumption. reflexivity.
-Qed.
-Lemma rep_rt k l rest : rep_wf k l -> rep_dec k (rep_enc l ++ rest) = Ok (l, rest).
-Proof. intros [<- H]. now apply rep_rt_gen. Qed.
-Definition rep (k : nat) : fmt (list A) :=
-  {| enc := rep_enc; dec := rep_dec k; wf := rep_wf k; rt := rep_rt k |}.
-
-Lemma rep_enc_len n (F : fixed f n) l : Forall (wf f) l -> len (rep_enc l) = N.of_nat (length l) * n.
-Proof.
-  induction l as [|a l IH]; intros H; [reflexivity|]. inversion H as [|? ? Ha Hl]; subst.
-  cbn [rep_enc flat_map length]. rewrite len_app, (fx_len (f := f)) by assumption.
-  unfold rep_enc in IH. rewrite IH by assumption. lia.
-Qed.
-Global Instance fixed_rep n (F : fixed f n) k : fixed (rep k) (N.of_nat k * n).
-Proof.
-  split.
-  - intros a [<- Ha]. cbn [enc rep]. now apply rep_enc_len.
-  - induction k as [|k IH]; intros l Hl.
-    + exists [], l. split; [reflexivity|lia].
-    + destruct (fx_ok (f := f) l) as (a & r & E & Hr); [lia|].
-      destruct (IH r) as (t & r' & E' & Hr'); [lia|].
-      exists (a :: t), r'. split; [|lia]. cbn [dec rep rep_dec]. rewrite E. cbn [bind].
-      cbn [dec rep] in E'. rewrite E'. reflexivity.
-Qed.
-End Rep.
-
-(* ------------------------------------------------------------------ general (variable-size) combinators,
-   used where the Go parser has no guard between the length field and the data it governs *)
-(* u8 length prefix + that many raw bytes *)
-Definition lp8_dec (l : list N) : result (list N * list N) :=
-  '(n, r) <- dec u8 l ;; take n r.
-Lemma lp8_rt s rest : len s < 256 -> lp8_dec ((enc u8 (len s) ++ s) ++ rest) = Ok (s, rest).
-Proof.
-  intros H. unfold lp8_dec. rewrite <- app_assoc.
-  rewrite (rt u8) by (cbn; lia). cbn [bind]. apply take_app.
-Qed.
-Definition lp8 : fmt (list N) :=
-  {| enc := fun s => enc u8 (len s) ++ s; dec := lp8_dec; wf := fun s => len s < 256; rt := lp8_rt |}.
-
-(* u8 / u16 / u32 counted lists *)
-Section Cnt.
-Context {A : Type} (f : fmt A) (cw : nat).
-Definition cnt_enc (l : list A) : list N := be_enc cw (len l) ++ rep_enc f l.
-Definition cnt_dec (l : list N) : result (list A * list N) :=
-  '(n, r) <- dec (ube cw) l ;; rep_dec f (N.to_nat n) r.
-Definition cnt_wf (l : list A) : Prop := len l < 256 ^ N.of_nat cw /\ Forall (wf f) l.
-Lemma cnt_rt l rest : cnt_wf l -> cnt_dec (cnt_enc l ++ rest) = Ok (l, rest).
-Proof.
-  intros [Hn Hl]. unfold cnt_enc, cnt_dec. rewrite <- app_assoc.
-  change (be_enc cw (len l)) with (enc (ube cw) (len l)). rewrite (rt (ube cw)) by exact Hn. cbn [bind].
-  unfold len. rewrite Nat2N.id. now apply rep_rt_gen.
-Qed.
-Definition cnt : fmt (list A) := {| enc := cnt_enc; dec := cnt_dec; wf := cnt_wf; rt := cnt_rt |}.
-End Cnt.
+Lemma str_cut0_len n : has_len (str_cut0 n) n.
+Proof. intros a _. apply fill_len. Qed.
 
 (* ------------------------------------------------------------------ BCD timestamps (utils.Time2BCD / utils.BCD2Time) *)
 (* Text is a list of character codes.  Time2BCD: when the text contains ':' the characters '-', ':' and ' '
@@ -396,10 +302,13 @@ Proof.
   match goal with E : forallb _ _ = true |- _ => rewrite forallb_forall in E; apply Forall_forall; exact E end.
 Qed.
 
-Lemma time2bcd_ok t : time_ok t = true ->
-  bcd2time (time2bcd t) = t /\ bcd6_ok (time2bcd t) = true.
+(* the text laid out from twelve decimal digits packs to the six bytes of its digit pairs *)
+Lemma time2bcd_layout y1 y2 m1 m2 d1 d2 h1 h2 i1 i2 e1 e2 :
+  Forall (fun c => is_digit c = true) [y1; y2; m1; m2; d1; d2; h1; h2; i1; i2; e1; e2] ->
+  time2bcd [50; 48; y1; y2; 45; m1; m2; 45; d1; d2; 32; h1; h2; 58; i1; i2; 58; e1; e2] =
+  bcd_pairs [y1; y2; m1; m2; d1; d2; h1; h2; i1; i2; e1; e2].
 Proof.
-  intros H. destruct (time_ok_shape t H) as (y1 & y2 & m1 & m2 & d1 & d2 & h1 & h2 & i1 & i2 & e1 & e2 & -> & F).
+  intros F.
   repeat match goal with F : Forall _ (_ :: _) |- _ => inversion F as [|? ? ? F']; subst; clear F; rename F' into F end.
   clear F.
   assert (existsb (N.eqb 58)
@@ -412,7 +321,16 @@ Proof.
   change (len [50; 48; y1; y2; m1; m2; d1; d2; h1; h2; i1; i2; e1; e2] =? 14) with true. cbv iota.
   cbn [skipn].
   change (N.odd (len [y1; y2; m1; m2; d1; d2; h1; h2; i1; i2; e1; e2])) with false. cbv iota.
-  cbn [bcd_pairs].
+  reflexivity.
+Qed.
+
+Lemma time2bcd_ok t : time_ok t = true ->
+  bcd2time (time2bcd t) = t /\ bcd6_ok (time2bcd t) = true.
+Proof.
+  intros H. destruct (time_ok_shape t H) as (y1 & y2 & m1 & m2 & d1 & d2 & h1 & h2 & i1 & i2 & e1 & e2 & -> & F).
+  rewrite time2bcd_layout by exact F.
+  repeat match goal with F : Forall _ (_ :: _) |- _ => inversion F as [|? ? ? F']; subst; clear F; rename F' into F end.
+  clear F. cbn [bcd_pairs].
   destruct (pair_digits y1 y2) as (A1 & A2 & A3); [assumption..|].
   destruct (pair_digits m1 m2) as (B1 & B2 & B3); [assumption..|].
   destruct (pair_digits d1 d2) as (C1 & C2 & C3); [assumption..|].
@@ -427,61 +345,407 @@ Proof.
     rewrite A3, B3, C3, D3, E3, G3. reflexivity.
 Qed.
 
+Lemma len6_shape (b : list N) : (len b =? 6) = true -> exists b0 b1 b2 b3 b4 b5, b = [b0; b1; b2; b3; b4; b5].
+Proof.
+  intros H. apply N.eqb_eq in H. unfold len in H. assert (length b = 6%nat) as L by lia. clear H.
+  do 6 (destruct b as [|? b]; [discriminate L|]). destruct b; [|discriminate L].
+  do 6 eexists. reflexivity.
+Qed.
+
+(* the other direction: six bytes of decimal nibbles survive BCD2Time then Time2BCD *)
 Lemma bcd2time_ok b : bcd6_ok b = true -> time2bcd (bcd2time b) = b /\ time_ok (bcd2time b) = true.
 Proof.
   unfold bcd6_ok. intros H. apply andb_true_iff in H. destruct H as [Hl Hb].
-  do 6 (destruct b as [|? b]; [discriminate Hl|]). destruct b; [|discriminate Hl].
-  cbn [forallb] in Hb. repeat (apply andb_true_iff in Hb; destruct Hb as [? Hb]). clear Hb Hl.
-  repeat match goal with E : bcd_byte_ok ?v = true |- _ =>
-    let A := fresh "A" in let B := fresh "B" in let C := fresh "C" in
-    destruct (byte_digits v E) as (A & B & C); clear E end.
-  assert (T : time_ok (bcd2time [n; n0; n1; n2; n3; n4]) = true).
-  { unfold bcd2time, bcd_chars. cbn [flat_map app]. change (len [_; _; _; _; _; _] =? 6) with true. cbv iota.
-    cbn [time_ok forallb]. rewrite !N.eqb_refl. cbn [andb].
-    repeat match goal with E : is_digit _ = true |- _ => rewrite E; clear E end. reflexivity. }
-  split; [|exact T].
-  destruct (time2bcd_ok _ T) as [_ _].
-  (* compute time2bcd on the laid-out text exactly as in time2bcd_ok *)
+  destruct (len6_shape b Hl) as (b0 & b1 & b2 & b3 & b4 & b5 & ->). clear Hl.
+  cbn [forallb] in Hb. repeat (apply andb_true_iff in Hb; destruct Hb as [? Hb]). clear Hb.
+  destruct (byte_digits b0) as (P0 & Q0 & R0); [assumption|].
+  destruct (byte_digits b1) as (P1 & Q1 & R1); [assumption|].
+  destruct (byte_digits b2) as (P2 & Q2 & R2); [assumption|].
+  destruct (byte_digits b3) as (P3 & Q3 & R3); [assumption|].
+  destruct (byte_digits b4) as (P4 & Q4 & R4); [assumption|].
+  destruct (byte_digits b5) as (P5 & Q5 & R5); [assumption|].
   unfold bcd2time, bcd_chars. cbn [flat_map app]. change (len [_; _; _; _; _; _] =? 6) with true. cbv iota.
-  assert (Ex : forall l1 l2, existsb (N.eqb 58) (l1 ++ 58 :: l2) = true).
-  { intros l1 l2. apply existsb_exists. exists 58. split; [apply in_elt|reflexivity]. }
-  unfold time2bcd.
-  match goal with |- context[existsb (N.eqb 58) ?l] =>
-    replace (existsb (N.eqb 58) l) with true
-      by (symmetry; apply existsb_exists; exists 58; split; [do 13 right; left; reflexivity|reflexivity]) end.
-  repeat (first [ rewrite filter_drop by reflexivity
-                | rewrite filter_keep by (reflexivity || (apply negb_true_iff; apply digit_not_sep; assumption)) ]).
-  cbn [filter].
-  change (len [50; 48; _; _; _; _; _; _; _; _; _; _; _; _] =? 14) with true. cbv iota. cbn [skipn].
-  change (N.odd (len [_; _; _; _; _; _; _; _; _; _; _; _])) with false. cbv iota. cbn [bcd_pairs].
-  congruence.
-Qed.
-
-Definition bcd_time_dec (l : list N) : result (list N * list N) := '(b, r) <- take 6 l ;; Ok (bcd2time b, r).
-Lemma bcd_time_rt t rest : time_ok t = true -> bcd_time_dec (time2bcd t ++ rest) = Ok (t, rest).
-Proof.
-  intros H. destruct (time2bcd_ok t H) as [E L]. unfold bcd_time_dec.
-  rewrite take_app_n by (unfold bcd6_ok in L; lia). cbn [bind]. now rewrite E.
-Qed.
-Definition bcd_time : fmt (list N) :=
-  {| enc := time2bcd; dec := bcd_time_dec; wf := fun t => time_ok t = true; rt := bcd_time_rt |}.
-Global Instance fixed_bcd_time : fixed bcd_time 6.
-Proof.
   split.
-  - intros t H. destruct (time2bcd_ok t H) as [_ L]. unfold bcd6_ok in L. cbn [enc bcd_time]. lia.
-  - intros l H. destruct (take_ok_len _ l H) as (a & r & E & Ha & Hr & _).
-    exists (bcd2time a), r. split; [|exact Hr]. cbn [dec bcd_time]. unfold bcd_time_dec. now rewrite E.
+  - rewrite time2bcd_layout by (repeat constructor; assumption).
+    cbn [bcd_pairs]. rewrite R0, R1, R2, R3, R4, R5. reflexivity.
+  - cbn [time_ok forallb]. rewrite !N.eqb_refl. cbn [andb].
+    rewrite P0, Q0, P1, Q1, P2, Q2, P3, Q3, P4, Q4, P5, Q5. reflexivity.
 Qed.
 
-(* ------------------------------------------------------------------ helpers for message-level proofs *)
-(* the decoder of a fixed format on the encoding of a well-formed value followed by anything *)
-Lemma dec_enc_app {A} (f : fmt A) a rest : wf f a -> dec f (enc f a ++ rest) = Ok (a, rest).
-Proof. apply rt. Qed.
-Lemma dec_enc_nil {A} (f : fmt A) a : wf f a -> dec f (enc f a) = Ok (a, []).
-Proof. intros H. rewrite <- (app_nil_r (enc f a)). now apply rt. Qed.
+Definition bcd_time : fmt (list N) := {|
+  enc := time2bcd;
+  dec := fun l => '(b, r) <- take_e 6 l ;; Ok (bcd2time b, r);
+  wf := time_ok |}.
+Lemma bcd_time_ok : fmt_ok bcd_time.
+Proof.
+  intros t rest H. cbn [enc dec wf bcd_time] in *. destruct (time2bcd_ok t H) as [E L].
+  rewrite take_e_app_n by (unfold bcd6_ok in L; lia). cbn [bind]. now rewrite E.
+Qed.
+Lemma bcd_time_len : has_len bcd_time 6.
+Proof. intros t H. cbn [enc wf bcd_time] in *. destruct (time2bcd_ok t H) as [_ L]. unfold bcd6_ok in L. lia. Qed.
 
-(* Example: P0x8003 as a pure format, byte-identical to the re-request observed from the real server *)
+(* ------------------------------------------------------------------ exactly k items *)
+Section Rep.
+Context {A : Type} (f : fmt A).
+Fixpoint rep_dec (k : nat) (l : list N) : result (list A * list N) :=
+  match k with
+  | O => Ok ([], l)
+  | S k' => '(a, r) <- dec f l ;; '(t, r') <- rep_dec k' r ;; Ok (a :: t, r')
+  end.
+Definition rep_enc (l : list A) : list N := flat_map (enc f) l.
+Lemma rep_rt : fmt_ok f -> forall (l : list A) rest, forallb (wf f) l = true ->
+  rep_dec (length l) (rep_enc l ++ rest) = Ok (l, rest).
+Proof.
+  intros Hf. induction l as [|a l IH]; intros rest H; [reflexivity|].
+  cbn [forallb] in H. apply andb_true_iff in H. destruct H as [Ha Hl].
+  cbn [length rep_dec rep_enc flat_map]. rewrite <- app_assoc.
+  rewrite (Hf a) by assumption. cbn [bind]. unfold rep_enc in IH. rewrite IH by assumption. reflexivity.
+Qed.
+Lemma rep_enc_len n : has_len f n -> forall l, forallb (wf f) l = true -> len (rep_enc l) = len l * n.
+Proof.
+  intros Hn. induction l as [|a l IH]; intros H; [reflexivity|].
+  cbn [forallb] in H. apply andb_true_iff in H. destruct H as [Ha Hl].
+  cbn [rep_enc flat_map]. rewrite len_app, len_cons, (Hn a Ha). unfold rep_enc in IH. rewrite IH by assumption. lia.
+Qed.
+End Rep.
+
+(* ================================================================== the value universe *)
+Inductive val := VN (n : N) | VB (b : list N) | VL (l : list val).
+
+Definition vN (f : fmt N) : fmt val := {|
+  enc := fun v => match v with VN a => enc f a | _ => [] end;
+  dec := fun l => '(a, r) <- dec f l ;; Ok (VN a, r);
+  wf := fun v => match v with VN a => wf f a | _ => false end |}.
+Lemma vN_ok f : fmt_ok f -> fmt_ok (vN f).
+Proof.
+  intros Hf [a|b|l] rest H; cbn [enc dec wf vN] in *; try discriminate H.
+  rewrite (Hf a) by exact H. reflexivity.
+Qed.
+Lemma vN_len f n : has_len f n -> has_len (vN f) n.
+Proof. intros Hf [a|b|l] H; cbn [enc wf vN] in *; try discriminate H. now apply Hf. Qed.
+
+Definition vB (f : fmt (list N)) : fmt val := {|
+  enc := fun v => match v with VB a => enc f a | _ => [] end;
+  dec := fun l => '(a, r) <- dec f l ;; Ok (VB a, r);
+  wf := fun v => match v with VB a => wf f a | _ => false end |}.
+Lemma vB_ok f : fmt_ok f -> fmt_ok (vB f).
+Proof.
+  intros Hf [a|b|l] rest H; cbn [enc dec wf vB] in *; try discriminate H.
+  rewrite (Hf b) by exact H. reflexivity.
+Qed.
+Lemma vB_len f n : has_len f n -> has_len (vB f) n.
+Proof. intros Hf [a|b|l] H; cbn [enc wf vB] in *; try discriminate H. now apply Hf. Qed.
+
+(* the leaves used by the message models *)
+Definition vu8 : fmt val := vN (ube 1).
+Definition vu16 : fmt val := vN (ube 2).
+Definition vu32 : fmt val := vN (ube 4).
+Definition vu64 : fmt val := vN (ube 8).
+Definition vbytes (n : N) : fmt val := vB (bytes_n n).
+Definition vpad (n : N) : fmt val := vB (str_pad n).
+Definition vpad2 (n : N) : fmt val := vB (str_pad2 n).
+Definition vcut0 (n : N) : fmt val := vB (str_cut0 n).
+Definition vtime : fmt val := vB bcd_time.
+
+(* decidable equality on values (for constant and derived fields) *)
+Fixpoint val_eqb (a b : val) : bool :=
+  match a, b with
+  | VN x, VN y => x =? y
+  | VB x, VB y => list_eqb x y
+  | VL x, VL y =>
+      (fix go (x y : list val) : bool :=
+         match x, y with
+         | [], [] => true
+         | u :: x', w :: y' => val_eqb u w && go x' y'
+         | _, _ => false
+         end) x y
+  | _, _ => false
+  end.
+Definition vals_eqb : list val -> list val -> bool :=
+  fix go (x y : list val) : bool :=
+    match x, y with
+    | [], [] => true
+    | u :: x', w :: y' => val_eqb u w && go x' y'
+    | _, _ => false
+    end.
+
+Lemma val_eqb_eq : forall a b, val_eqb a b = true -> a = b.
+Proof.
+  fix IH 1. intros [x|x|x] [y|y|y] H; cbn [val_eqb] in H; try discriminate H.
+  - apply N.eqb_eq in H. now subst.
+  - apply list_eqb_spec in H. now subst.
+  - f_equal. revert y H. induction x as [|u x IHx]; intros [|w y] H; try discriminate H; auto.
+    apply andb_true_iff in H. destruct H as [H1 H2]. f_equal; [apply IH, H1 | apply IHx, H2].
+Qed.
+Lemma vals_eqb_eq : forall x y, vals_eqb x y = true -> x = y.
+Proof.
+  induction x as [|u x IHx]; intros [|w y] H; cbn [vals_eqb] in H; try discriminate H; auto.
+  apply andb_true_iff in H. destruct H as [H1 H2]. f_equal; [apply val_eqb_eq, H1 | apply IHx, H2].
+Qed.
+
+(* a field that is not on the wire: its value is a function of nothing (constant) *)
+Definition vconst (c : val) : fmt val := {|
+  enc := fun _ => [];
+  dec := fun l => Ok (c, l);
+  wf := fun v => val_eqb v c |}.
+Lemma vconst_ok c : fmt_ok (vconst c).
+Proof. intros v rest H. cbn [enc dec wf vconst] in *. apply val_eqb_eq in H. now subst. Qed.
+Lemma vconst_len c : has_len (vconst c) 0.
+Proof. intros v _. reflexivity. Qed.
+
+(* exactly k items of one format, as a tuple *)
+Definition vrep (k : N) (f : fmt val) : fmt val := {|
+  enc := fun v => match v with VL l => rep_enc f l | _ => [] end;
+  dec := fun l => '(vs, r) <- rep_dec f (N.to_nat k) l ;; Ok (VL vs, r);
+  wf := fun v => match v with VL l => (len l =? k) && forallb (wf f) l | _ => false end |}.
+Lemma vrep_ok k f : fmt_ok f -> fmt_ok (vrep k f).
+Proof.
+  intros Hf [a|b|l] rest H; cbn [enc dec wf vrep] in *; try discriminate H.
+  apply andb_true_iff in H. destruct H as [Hk Hl]. apply N.eqb_eq in Hk. subst k.
+  unfold len. rewrite Nat2N.id. rewrite rep_rt by assumption. reflexivity.
+Qed.
+Lemma vrep_len k f n : has_len f n -> has_len (vrep k f) (k * n).
+Proof.
+  intros Hf [a|b|l] H; cbn [enc wf vrep] in *; try discriminate H.
+  apply andb_true_iff in H. destruct H as [Hk Hl]. apply N.eqb_eq in Hk. subst k. now apply rep_enc_len.
+Qed.
+
+(* the same with a count too large to unfold blindly (a DWORD count): the Go parsers compare
+   count * item width with the body length first, so does this decoder *)
+Definition vrep_w (k w : N) (f : fmt val) : fmt val := {|
+  enc := enc (vrep k f);
+  dec := fun l => if k * w <=? len l then dec (vrep k f) l else Err 1;
+  wf := wf (vrep k f) |}.
+Lemma vrep_w_ok k w f : fmt_ok f -> has_len f w -> fmt_ok (vrep_w k w f).
+Proof.
+  intros Hf Hw v rest H. cbn [enc dec wf vrep_w] in *.
+  pose proof (vrep_len k f w Hw v H) as L. rewrite len_app, L.
+  replace (k * w <=? k * w + len rest) with true by lia. now apply vrep_ok.
+Qed.
+Lemma vrep_w_len k w f : has_len f w -> has_len (vrep_w k w f) (k * w).
+Proof. intros Hf v H. now apply (vrep_len k f w Hf). Qed.
+
+(* ------------------------------------------------------------------ tuples whose later fields may depend on earlier ones *)
+Definition field := list val -> fmt val.
+
+Fixpoint ps_enc (fs : list field) (acc vs : list val) : list N :=
+  match fs, vs with
+  | f :: fs', v :: vs' => enc (f acc) v ++ ps_enc fs' (acc ++ [v]) vs'
+  | _, _ => []
+  end.
+Fixpoint ps_dec (fs : list field) (acc : list val) (l : list N) : result (list val * list N) :=
+  match fs with
+  | [] => Ok ([], l)
+  | f :: fs' => '(v, r) <- dec (f acc) l ;; '(vs, r') <- ps_dec fs' (acc ++ [v]) r ;; Ok (v :: vs, r')
+  end.
+Fixpoint ps_wf (fs : list field) (acc vs : list val) : bool :=
+  match fs, vs with
+  | [], [] => true
+  | f :: fs', v :: vs' => wf (f acc) v && ps_wf fs' (acc ++ [v]) vs'
+  | _, _ => false
+  end.
+
+Definition fields_ok (fs : list field) : Prop := Forall (fun f => forall acc, fmt_ok (f acc)) fs.
+Lemma fields_ok_nil : fields_ok []. Proof. constructor. Qed.
+Lemma fields_ok_cons f fs : (forall acc, fmt_ok (f acc)) -> fields_ok fs -> fields_ok (f :: fs).
+Proof. intros H1 H2. constructor; assumption. Qed.
+
+Lemma ps_rt fs : fields_ok fs -> forall acc vs rest, ps_wf fs acc vs = true ->
+  ps_dec fs acc (ps_enc fs acc vs ++ rest) = Ok (vs, rest).
+Proof.
+  induction 1 as [|f fs Hf _ IH]; intros acc vs rest H.
+  - destruct vs; [reflexivity|discriminate H].
+  - destruct vs as [|v vs]; [discriminate H|]. cbn [ps_wf] in H. apply andb_true_iff in H. destruct H as [Hv Hvs].
+    cbn [ps_enc ps_dec]. rewrite <- app_assoc. rewrite (Hf acc v) by exact Hv. cbn [bind].
+    rewrite IH by exact Hvs. reflexivity.
+Qed.
+Lemma ps_wf_length fs : forall acc vs, ps_wf fs acc vs = true -> length vs = length fs.
+Proof.
+  induction fs as [|f fs IH]; intros acc [|v vs] H; try discriminate H; auto.
+  cbn [ps_wf] in H. apply andb_true_iff in H. destruct H as [_ H]. cbn [length]. f_equal. eapply IH, H.
+Qed.
+
+(* widths of a tuple whose fields have fixed widths *)
+Definition fields_len (fs : list field) (ws : list N) : Prop :=
+  Forall2 (fun f w => forall acc, has_len (f acc) w) fs ws.
+Definition nsum (ws : list N) : N := fold_right N.add 0 ws.
+Lemma ps_len fs ws : fields_len fs ws -> forall acc vs, ps_wf fs acc vs = true -> len (ps_enc fs acc vs) = nsum ws.
+Proof.
+  induction 1 as [|f w fs ws Hf _ IH]; intros acc vs H.
+  - destruct vs; [reflexivity|discriminate H].
+  - destruct vs as [|v vs]; [discriminate H|]. cbn [ps_wf] in H. apply andb_true_iff in H. destruct H as [Hv Hvs].
+    cbn [ps_enc nsum fold_right]. rewrite len_app, (Hf acc v Hv). f_equal. apply IH, Hvs.
+Qed.
+
+(* the i-th earlier field as a number (0 when it is not one) *)
+Definition accN (acc : list val) (i : nat) : N := match nth i acc (VN 0) with VN a => a | _ => 0 end.
+
+Definition vstruct (fs : list field) : fmt val := {|
+  enc := fun v => match v with VL vs => ps_enc fs [] vs | _ => [] end;
+  dec := fun l => '(vs, r) <- ps_dec fs [] l ;; Ok (VL vs, r);
+  wf := fun v => match v with VL vs => ps_wf fs [] vs | _ => false end |}.
+Lemma vstruct_ok fs : fields_ok fs -> fmt_ok (vstruct fs).
+Proof.
+  intros Hf [a|b|l] rest H; cbn [enc dec wf vstruct] in *; try discriminate H.
+  rewrite ps_rt by assumption. reflexivity.
+Qed.
+Lemma vstruct_len fs ws : fields_len fs ws -> has_len (vstruct fs) (nsum ws).
+Proof. intros Hf [a|b|l] H; cbn [enc wf vstruct] in *; try discriminate H. now apply (ps_len fs ws). Qed.
+
+(* ------------------------------------------------------------------ tails: what a parser does with the bytes after the last field *)
+Record tail := {
+  tl_enc : list val -> list N;
+  tl_dec : list N -> result (list val);
+  tl_wf  : list val -> bool }.
+Definition tail_ok (t : tail) : Prop := forall vs, tl_wf t vs = true -> tl_dec t (tl_enc t vs) = Ok vs.
+
+(* `if len(body) != N` : nothing may follow (Err 2 = trailing bytes) *)
+Definition tl_exact : tail := {|
+  tl_enc := fun _ => [];
+  tl_dec := fun l => match l with [] => Ok [] | _ => Err 2 end;
+  tl_wf := fun vs => match vs with [] => true | _ => false end |}.
+Lemma tl_exact_ok : tail_ok tl_exact.
+Proof. intros [|v vs] H; [reflexivity|discriminate H]. Qed.
+
+(* `if len(body) < N` only: whatever follows is ignored *)
+Definition tl_ignore : tail := {|
+  tl_enc := fun _ => [];
+  tl_dec := fun _ => Ok [];
+  tl_wf := fun vs => match vs with [] => true | _ => false end |}.
+Lemma tl_ignore_ok : tail_ok tl_ignore.
+Proof. intros [|v vs] H; [reflexivity|discriminate H]. Qed.
+
+(* the remaining bytes, converted by an (external) codec pair, are one last byte-string field:
+   body[k:] with the identity, GBK2UTF8(body[k:]) / UTF82GBK(text) with the GBK codec *)
+Definition tl_conv (cenc cdec : list N -> list N) (cdom : list N -> bool) : tail := {|
+  tl_enc := fun vs => match vs with [VB s] => cenc s | _ => [] end;
+  tl_dec := fun l => Ok [VB (cdec l)];
+  tl_wf := fun vs => match vs with [VB s] => cdom s | _ => false end |}.
+Definition codec_ok (cenc cdec : list N -> list N) (cdom : list N -> bool) : Prop :=
+  forall s, cdom s = true -> cdec (cenc s) = s.
+Lemma tl_conv_ok cenc cdec cdom : codec_ok cenc cdec cdom -> tail_ok (tl_conv cenc cdec cdom).
+Proof.
+  intros Hc vs H. cbn [tl_enc tl_dec tl_wf tl_conv] in *.
+  destruct vs as [|[a|s|l] [|w vs]]; try discriminate H. now rewrite Hc.
+Qed.
+Definition tl_rest : tail := tl_conv (fun s => s) (fun s => s) (fun _ => true).
+Lemma tl_rest_ok : tail_ok tl_rest.
+Proof. apply tl_conv_ok. intros s _. reflexivity. Qed.
+
+(* n fields of the tail t followed by fields that are not on the wire and always hold the constants cs *)
+Definition tl_consts (n : nat) (t : tail) (cs : list val) : tail := {|
+  tl_enc := fun vs => tl_enc t (firstn n vs);
+  tl_dec := fun l => vs <- tl_dec t l ;; Ok (vs ++ cs);
+  tl_wf := fun vs => tl_wf t (firstn n vs) && (length (firstn n vs) =? n)%nat && vals_eqb (skipn n vs) cs |}.
+Lemma tl_consts_ok n t cs : tail_ok t -> tail_ok (tl_consts n t cs).
+Proof.
+  intros Ht vs H. cbn [tl_enc tl_dec tl_wf tl_consts] in *.
+  apply andb_true_iff in H. destruct H as [H H3]. apply andb_true_iff in H. destruct H as [H1 H2].
+  rewrite Ht by exact H1. cbn [bind]. apply vals_eqb_eq in H3. rewrite <- H3. now rewrite firstn_skipn.
+Qed.
+
+(* ------------------------------------------------------------------ message bodies *)
+Record msg := {
+  m_enc : val -> list N;
+  m_dec : list N -> result val;
+  m_wf  : val -> bool }.
+Definition msg_ok (m : msg) : Prop := forall v, m_wf m v = true -> m_dec m (m_enc m v) = Ok v.
+
+(* the property for one message type, both halves: the parsed value is the original, and re-encoding what was
+   parsed gives the same bytes *)
+Lemma law_of_ok m : msg_ok m -> forall v, m_wf m v = true ->
+  m_dec m (m_enc m v) = Ok v /\ (forall v', m_dec m (m_enc m v) = Ok v' -> m_enc m v' = m_enc m v).
+Proof. intros H v Hw. split; [now apply H|]. intros v' E. rewrite (H v Hw) in E. now inversion E. Qed.
+
+(* fields, then a tail that may depend on them *)
+Definition mk_msg (fs : list field) (t : list val -> tail) : msg :=
+  let n := length fs in {|
+  m_enc := fun v => match v with
+                    | VL vs => ps_enc fs [] (firstn n vs) ++ tl_enc (t (firstn n vs)) (skipn n vs)
+                    | _ => [] end;
+  m_dec := fun l => '(vs, r) <- ps_dec fs [] l ;; ws <- tl_dec (t vs) r ;; Ok (VL (vs ++ ws));
+  m_wf := fun v => match v with
+                   | VL vs => ps_wf fs [] (firstn n vs) && tl_wf (t (firstn n vs)) (skipn n vs)
+                   | _ => false end |}.
+Lemma mk_msg_ok fs t : fields_ok fs -> (forall acc, tail_ok (t acc)) -> msg_ok (mk_msg fs t).
+Proof.
+  intros Hf Ht [a|b|vs] H; cbn [m_enc m_dec m_wf mk_msg] in *; try discriminate H.
+  apply andb_true_iff in H. destruct H as [H1 H2].
+  rewrite ps_rt by assumption. cbn [bind]. rewrite Ht by exact H2. cbn [bind]. now rewrite firstn_skipn.
+Qed.
+
+(* a further restriction of the domain *)
+Definition msg_restrict (p : val -> bool) (m : msg) : msg :=
+  {| m_enc := m_enc m; m_dec := m_dec m; m_wf := fun v => m_wf m v && p v |}.
+Lemma msg_restrict_ok p m : msg_ok m -> msg_ok (msg_restrict p m).
+Proof. intros Hm v H. cbn [m_enc m_dec m_wf msg_restrict] in *. apply andb_true_iff in H. now apply Hm. Qed.
+
+(* two layouts; the parser chooses by looking at the body (sel), the encoder by looking at the value (selv) *)
+Definition msg_switch (sel : list N -> bool) (selv : val -> bool) (m1 m2 : msg) : msg := {|
+  m_enc := fun v => if selv v then m_enc m1 v else m_enc m2 v;
+  m_dec := fun l => if sel l then m_dec m1 l else m_dec m2 l;
+  m_wf := fun v => if selv v then m_wf m1 v else m_wf m2 v |}.
+Lemma msg_switch_ok sel selv m1 m2 : msg_ok m1 -> msg_ok m2 ->
+  (forall v, selv v = true -> m_wf m1 v = true -> sel (m_enc m1 v) = true) ->
+  (forall v, selv v = false -> m_wf m2 v = true -> sel (m_enc m2 v) = false) ->
+  msg_ok (msg_switch sel selv m1 m2).
+Proof.
+  intros H1 H2 S1 S2 v H. cbn [m_enc m_dec m_wf msg_switch] in *. destruct (selv v) eqn:E.
+  - rewrite S1 by assumption. now apply H1.
+  - rewrite S2 by assumption. now apply H2.
+Qed.
+
+(* the length of what a message with fixed-width fields and nothing in its tail encodes *)
+Lemma mk_msg_len fs t ws v : fields_len fs ws -> (forall acc vs, tl_enc (t acc) vs = []) ->
+  m_wf (mk_msg fs t) v = true -> len (m_enc (mk_msg fs t) v) = nsum ws.
+Proof.
+  intros Hf Ht H. destruct v as [a|b|vs]; cbn [m_enc m_wf mk_msg] in *; try discriminate H.
+  apply andb_true_iff in H. destruct H as [H1 _]. rewrite Ht, app_nil_r. now apply (ps_len fs ws).
+Qed.
+
+(* the same when the tail does encode something *)
+Lemma mk_msg_len_gen fs t ws vs : fields_len fs ws ->
+  m_wf (mk_msg fs t) (VL vs) = true ->
+  len (m_enc (mk_msg fs t) (VL vs)) =
+  nsum ws + len (tl_enc (t (firstn (length fs) vs)) (skipn (length fs) vs)).
+Proof.
+  intros Hf H. cbn [m_enc m_wf mk_msg] in *. apply andb_true_iff in H. destruct H as [H1 _].
+  rewrite len_app. f_equal. now apply (ps_len fs ws).
+Qed.
+
+(* ------------------------------------------------------------------ proof automation for compositions *)
+Ltac fmt_ok :=
+  repeat first
+    [ assumption
+    | apply fields_ok_nil
+    | apply fields_ok_cons; [intro; cbv beta|]
+    | apply mk_msg_ok; [|intro; cbv beta]
+    | apply msg_restrict_ok
+    | apply vstruct_ok
+    | apply vrep_ok
+    | apply vN_ok | apply vB_ok
+    | apply ube_ok | apply bytes_n_ok | apply str_pad_ok | apply str_pad2_ok | apply str_cut0_ok
+    | apply bcd_time_ok | apply vconst_ok
+    | apply tl_exact_ok | apply tl_ignore_ok | apply tl_rest_ok
+    | apply tl_consts_ok
+    | apply tl_conv_ok ].
+
+Ltac fmt_len :=
+  repeat first
+    [ assumption
+    | apply Forall2_nil
+    | apply Forall2_cons; [intro; cbv beta|]
+    | apply vN_len | apply vB_len
+    | apply ube_len | apply bytes_n_len | apply str_pad_len | apply str_pad2_len | apply str_cut0_len
+    | apply bcd_time_len | apply vconst_len ].
+
+(* Example: P0x8003 (serial, count, ids), byte-identical to the re-request observed from the real server *)
+Definition ex_8003 : msg :=
+  mk_msg [fun _ => vu16; fun _ => vu8; fun acc => vrep (accN acc 1) vu16] (fun _ => tl_exact).
 Example fmt_8003_example :
-  enc (u16 ## cnt u16 1) (101, [2; 4; 5]) = [0; 101; 3; 0; 2; 0; 4; 0; 5] /\
-  dec (u16 ## cnt u16 1) [0; 101; 3; 0; 2; 0; 4; 0; 5] = Ok ((101, [2; 4; 5]), []).
-Proof. split; vm_compute; reflexivity. Qed.
+  m_enc ex_8003 (VL [VN 101; VN 3; VL [VN 2; VN 4; VN 5]]) = [0; 101; 3; 0; 2; 0; 4; 0; 5] /\
+  m_dec ex_8003 [0; 101; 3; 0; 2; 0; 4; 0; 5] = Ok (VL [VN 101; VN 3; VL [VN 2; VN 4; VN 5]]) /\
+  m_wf ex_8003 (VL [VN 101; VN 3; VL [VN 2; VN 4; VN 5]]) = true.
+Proof. repeat split; vm_compute; reflexivity. Qed.
+Example fmt_8003_ok : msg_ok ex_8003.
+Proof. unfold ex_8003. fmt_ok. Qed.
